@@ -7,7 +7,7 @@
 (*   "dontcare" (the spec is silent; all entry points must still agree).   *)
 (* A string is a sequence of one-character strings.                        *)
 (***************************************************************************)
-EXTENDS TLC, Json, Sequences, FiniteSets, Naturals
+EXTENDS TLC, Json, IOUtils, Sequences, FiniteSets, Naturals
 
 CONSTANTS Mode, EmitTR
 
@@ -118,9 +118,22 @@ Examples ==
   /\ ProcessVerdict(<<"w","e","b">>) = "accept" /\ ProcessVerdict(<<"a","/">>) = "reject"
   /\ LayerVerdict(Build) = "reject" /\ LayerVerdict(<<"b","u","i","l","d","x">>) = "accept" /\ LayerVerdict(<<>>) = "reject"
 
+\* direction B: random longer strings parsed by the real code; TLC evaluates the recognisers on each
+TraceRec == ndJsonDeserialize(IOEnv.TRACE)
+Compatible(verdict, accepted) == verdict = "dontcare" \/ ((verdict = "accept") = accepted)
+TraceCheck ==
+  \A i \in DOMAIN TraceRec :
+    LET r == TraceRec[i] IN
+    \/ IF r.kind = "name"
+       THEN /\ Compatible(IdVerdict(r.s), r.id) /\ Compatible(ProcessVerdict(r.s), r.process)
+            /\ Compatible(KeyVerdict(r.s), r.key) /\ Compatible(LayerVerdict(r.s), r.layer)
+       ELSE /\ Compatible(VersionVerdict(r.s), r.version) /\ Compatible(ApiVerdict(r.s), r.api)
+    \/ (PrintT(<<"TRACE_MISMATCH", i>>) /\ FALSE)
+
 ASSUME Examples
 ASSUME CASE Mode = "q" -> NameCases(3) /\ VersionCases(6, 4)
          [] Mode = "t" -> NameCases(4) /\ VersionCases(7, 5)
+         [] Mode = "trace" -> TraceCheck
          [] OTHER -> TRUE
 VARIABLE x
 Spec == x = 0 /\ [][UNCHANGED x]_x
